@@ -174,8 +174,18 @@ def _g2(ctx, rid, roots, tag, title):
     kinds = {}
     guards_seen = {}
     g.parent = parent
+    stale = [k for k in al if not k.startswith("_") and k not in F.fns]
     for p, kds in sorted(inv.items()):
         fa = al.get(p, {})
+        if not fa and stale:
+            # a renamed function keeps its reviewed allowances: an orphaned entry of the same module whose sites are
+            # exactly this function's sites (kind by kind, count by count) is taken to be the same function
+            sig = {kd: len(ss) for kd, ss in kds.items() if kd not in classes}
+            mod = p.rsplit("::", 1)[0]
+            cands = [k for k in stale if k.rsplit("::", 1)[0] == mod and {kd: e["count"] for kd, e in al[k].items()} == sig]
+            if len(cands) == 1:
+                fa = al[cands[0]]
+                r.info.append("function %s has no allow-list entry; using the orphaned entry of %s (same module, identical site signature): treated as a rename" % (p, cands[0]))
         for kd, sites in sorted(kds.items()):
             nsites += len(sites)
             kinds[kd.split(":")[0]] = kinds.get(kd.split(":")[0], 0) + len(sites)
